@@ -689,6 +689,22 @@ func gateCase(k *engine.Case) {
 		k.Logf("        -> %s", describe())
 		ok = check(fmt.Sprintf("step %d", s))
 		k.Count("quiescent_cuts", 1)
+		{
+			var sb strings.Builder
+			fmt.Fprintf(&sb, "%s stopped=%v", ex.Name(), stopped)
+			for _, l := range lanes {
+				q := 0
+				for _, c := range l.queue {
+					if c.cancelled {
+						q += 10
+					} else {
+						q++
+					}
+				}
+				fmt.Fprintf(&sb, " [run=%v q=%d]", l.running != nil, q)
+			}
+			k.C.ObserveStr("abstract_lane_states", sb.String())
+		}
 	}
 	if !ok {
 		finish()
